@@ -376,6 +376,14 @@ def fixeddict(name, *entries, **kwargs):
 
     __dict__["update"] = update
 
+    def __ior__(self, other):
+        # NB: dict's own in-place merge operator (Python 3.9+) bypasses
+        # __setitem__ so must also be overridden to enforce the key check
+        self.update(other)
+        return self
+
+    __dict__["__ior__"] = __ior__
+
     def __repr__(self):
         return "{}({{{}}})".format(
             self.__class__.__name__,
